@@ -908,7 +908,7 @@ def c11_post(ctx, cases, impl):
 # ------------------------------------------------------------------------------------------------------ registry
 
 PROPS = {
-    'C01': dict(modules=[], theorems=[], cases=c01_cases, anchors=BOARD_ANCHORS),
+    'C01': dict(modules=['Inkayaku.Props.C01', 'Inkayaku.Props.Closure'], theorems=['Inkayaku.C01.castle_masks_eq_fide', 'Inkayaku.C01.genNonQuiescent_eq_filter', 'Inkayaku.C01.sliding_iff', 'Inkayaku.C01.knight_iff', 'Inkayaku.C01.king_iff', 'Inkayaku.C01.pawn_iff', 'Inkayaku.C01.castle_iff', 'Inkayaku.C01.genPseudo_iff', 'Inkayaku.C01.genPseudo_uci_iff', 'Inkayaku.C01.genPseudo_nodup', 'Inkayaku.C01.genLegal_nodup', 'Inkayaku.C01.uci_agree', 'Inkayaku.C01.uci_injective', 'Inkayaku.C01.genLegal_eq_spec', 'Inkayaku.C01.perft_moves', 'Inkayaku.C01.legal_moves_exact'] + ['Inkayaku.Closure.genLegal_eq_rules'], cases=c01_cases, anchors=BOARD_ANCHORS),
     'C02': dict(modules=['Inkayaku.Props.C02'], theorems=['Inkayaku.C02.make_eq_apply', 'Inkayaku.C02.fen_make', 'Inkayaku.C02.make_eq_apply_legal', 'Inkayaku.C02.fen_make_legal', 'Inkayaku.C02.make_eq_apply_meta', 'Inkayaku.C02.castle_relocates_rook', 'Inkayaku.C02.en_passant_removes_pawn', 'Inkayaku.C02.promotion_replaces_pawn', 'Inkayaku.C02.rights_lost_iff', 'Inkayaku.C02.clock_reset_iff', 'Inkayaku.C02.fullmove_increments_after_black'], cases=c02_cases, anchors=BOARD_ANCHORS),
     'C03': dict(modules=['Inkayaku.Props.C03'], theorems=['Inkayaku.C03.vis_eq_iff', 'Inkayaku.C03.field_roundtrip', 'Inkayaku.C03.pack_injective', 'Inkayaku.C03.unmake_make', 'Inkayaku.C03.unmake_make_line', 'Inkayaku.C03.hash_restored', 'Inkayaku.C03.hash_restored_line', 'Inkayaku.C03.unmake_make_generated', 'Inkayaku.C03.unmake_make_generated_nq', 'Inkayaku.C03.unmake_make_generated_line'], cases=c03_cases, anchors=BOARD_ANCHORS),
     'C04': dict(modules=['Inkayaku.Props.C04'],
@@ -918,7 +918,7 @@ PROPS = {
                 anchors=['board/src/board/precalculated/magic.rs', 'board/src/board/precalculated/nonmagic.rs',
                          'core/src/constants/direction.rs', 'core/src/constants/square.rs'],
                 assumptions=['rustc evaluates the const tables as dumped by the same binary at run time']),
-    'C05': dict(modules=['Inkayaku.Props.C05'], theorems=['Inkayaku.C05.square_attacked', 'Inkayaku.C05.in_check', 'Inkayaku.C05.current_in_check', 'Inkayaku.C05.valid', 'Inkayaku.C05.move_legal', 'Inkayaku.C05.wf_not_in_check', 'Inkayaku.C05.occupancy_in_check', 'Inkayaku.C05.no_moves_iff'], cases=c05_cases, anchors=BOARD_ANCHORS),
+    'C05': dict(modules=['Inkayaku.Props.C05', 'Inkayaku.Props.Closure'], theorems=['Inkayaku.Closure.no_moves_iff_rules', 'Inkayaku.C05.square_attacked', 'Inkayaku.C05.in_check', 'Inkayaku.C05.current_in_check', 'Inkayaku.C05.valid', 'Inkayaku.C05.move_legal', 'Inkayaku.C05.wf_not_in_check', 'Inkayaku.C05.occupancy_in_check', 'Inkayaku.C05.no_moves_iff'], cases=c05_cases, anchors=BOARD_ANCHORS),
     'C06': dict(modules=['Inkayaku.Props.C06', 'Inkayaku.Props.C06Gen'], theorems=['Inkayaku.C06Gen.hash_incremental_generated', 'Inkayaku.C06Gen.pawnHash_incremental_generated', 'Inkayaku.C06.hash_incremental', 'Inkayaku.C06.pawnHash_incremental', 'Inkayaku.C06.hash_congr', 'Inkayaku.C06.hash_vis', 'Inkayaku.C06.hash_clocks', 'Inkayaku.C06.keys_good', 'Inkayaku.C06.hash_side', 'Inkayaku.C06.hash_toggles_right', 'Inkayaku.C06.hash_ep_file', 'Inkayaku.C06.hash_moves_piece', 'Inkayaku.C06.hash_changes_kind'], cases=c06_cases, post=c06_post, anchors=BOARD_ANCHORS),
     'C10': dict(modules=['Inkayaku.Props.C10', 'Inkayaku.Props.C10Fifty'],
                 theorems=['Inkayaku.C10.countRepetitions_value', 'Inkayaku.C10.countRepetitions_spec',
@@ -931,8 +931,8 @@ PROPS = {
                 cases=c11_cases, post=c11_post,
                 anchors=['engine_core/src/engine/heuristic.rs', 'engine_core/src/engine/heuristic/simple.rs', 'engine_core/src/engine/search.rs']),
     'C12': dict(modules=['Inkayaku.Props.C12'], theorems=['Inkayaku.C12.wf_repr', 'Inkayaku.C12.print_parse_board', 'Inkayaku.C12.print_parse_legal', 'Inkayaku.C12.decode_correct', 'Inkayaku.C12.decode_correct_four', 'Inkayaku.C12.decode_then_print', 'Inkayaku.C12.four_field_defaults', 'Inkayaku.C12.parse_print_canonical', 'Inkayaku.C12.parse_print_same', 'Inkayaku.C12.parse_print_four', 'Inkayaku.C12.reject_field_count', 'Inkayaku.C12.reject_illegal_char', 'Inkayaku.C12.reject_rank_sum', 'Inkayaku.C12.reject_adjacent_digits', 'Inkayaku.C12.reject_bad_side', 'Inkayaku.C12.reject_bad_castling', 'Inkayaku.C12.reject_bad_ep', 'Inkayaku.C12.reject_bad_clock', 'Inkayaku.C12.parse_no_panic_branch'], cases=c12_cases, anchors=['core/src/fen.rs', 'board/src/board.rs']),
-    'C13': dict(modules=['Inkayaku.Props.C13'], theorems=['Inkayaku.C13.findUci_pure', 'Inkayaku.C13.findUci_ok_iff', 'Inkayaku.C13.findUci_ok_iff_legal', 'Inkayaku.C13.findUci_err_kinds', 'Inkayaku.C13.makeUci_spec', 'Inkayaku.C13.makeAllUci_all_or_nothing', 'Inkayaku.C13.findUci_idempotent', 'Inkayaku.C13.uciToSan_pure', 'Inkayaku.C13.uciToSan_err_iff', 'Inkayaku.C13.sanToMove_legal'], cases=c13_cases, anchors=BOARD_ANCHORS),
-    'C14': dict(modules=[], theorems=[], cases=c14_cases, anchors=BOARD_ANCHORS),
+    'C13': dict(modules=['Inkayaku.Props.C13', 'Inkayaku.Props.Closure'], theorems=['Inkayaku.Closure.findUci_ok_iff_legal_wf', 'Inkayaku.Closure.makeAllUci_all_or_nothing_wf', 'Inkayaku.Closure.wfStep', 'Inkayaku.C13.findUci_pure', 'Inkayaku.C13.findUci_ok_iff', 'Inkayaku.C13.findUci_ok_iff_legal', 'Inkayaku.C13.findUci_err_kinds', 'Inkayaku.C13.makeUci_spec', 'Inkayaku.C13.makeAllUci_all_or_nothing', 'Inkayaku.C13.findUci_idempotent', 'Inkayaku.C13.uciToSan_pure', 'Inkayaku.C13.uciToSan_err_iff', 'Inkayaku.C13.sanToMove_legal'], cases=c13_cases, anchors=BOARD_ANCHORS),
+    'C14': dict(modules=['Inkayaku.Props.C14'], theorems=['Inkayaku.C14.sanCaptures_render', 'Inkayaku.C14.sanCaptures_complete', 'Inkayaku.C14.sanCaptures_none', 'Inkayaku.C14.check_mark', 'Inkayaku.C14.check_mark_rules', 'Inkayaku.C14.never_hash_for_stalemate', 'Inkayaku.C14.disamb_standard', 'Inkayaku.C14.disamb_unique', 'Inkayaku.C14.text_standard', 'Inkayaku.C14.san_roundtrip', 'Inkayaku.C14.san_roundtrip_wf', 'Inkayaku.C14.sanToMove_sound', 'Inkayaku.C14.sanToMove_some_iff', 'Inkayaku.C14.sanToMove_none_iff'], cases=c14_cases, anchors=BOARD_ANCHORS),
     'C15': dict(modules=['Inkayaku.Props.C15'],
                 theorems=['Inkayaku.C15.tokenize_pad', 'Inkayaku.C15.ucimove_roundtrip', 'Inkayaku.C15.parse_render_simple',
                           'Inkayaku.C15.parse_render_position', 'Inkayaku.C15.parse_render_go', 'Inkayaku.C15.parse_render',
